@@ -104,7 +104,7 @@ Section Authn.
      let ad := match_id dns dnss in
      let an := match_id (Some node) uris in
      ((true && is_mismatch ai) || (is_some dns && is_mismatch ad) || is_mismatch an)
-     || (is_absent ai && is_absent ad && rh) || (is_absent an && rn)).
+     || (negb (is_matched ai) && negb (is_matched ad) && rh) || (is_absent an && rn)).
   Proof.
     unfold refuses, authn_refuses, dns. rewrite dns_reference. reflexivity.
   Qed.
@@ -132,53 +132,28 @@ Section Authn.
     - rewrite !orb_false_iff in H. destruct H as [[[_ H] _] _]. cbn in H. discriminate.
   Qed.
 
-  (* host clause: holds except in one class of inputs *)
-  Lemma authn_host_partial :
-    ((passive = false /\ peer_name <> peer_addr) \/ dnss = [] \/ ips <> []) ->
+  (* host clause: required => an IP or DNS identifier of the certificate actually matched *)
+  Lemma authn_host :
     refuses = false -> rh = true -> host_authenticated peer_addr dns ips dnss.
   Proof.
-    intros G. rewrite refuses_unfold. cbv zeta. intros H R. subst rh.
+    rewrite refuses_unfold. cbv zeta. intros H R. subst rh.
+    rewrite !orb_false_iff in H. destruct H as [[_ H] _].
+    rewrite andb_true_r in H.
     unfold host_authenticated.
     destruct (match_idP (Some peer_addr) ips) as [Ei|ri Eri Ni Ii|Ni Mi].
-    - (* no IP SANs *)
-      destruct (match_idP dns dnss) as [Ed|rd Erd Nd Id|Nd Md].
-      + cbn in H. rewrite !orb_false_iff in H. destruct H as [[_ H] _]. discriminate.
-      + right. exists rd. split; assumption.
-      + (* DNS SANs present, none equal to the reference *)
-        destruct G as [[Pa Ne]|[Gd|Gi]]; [|contradiction|contradiction].
-        assert (E : dns = Some peer_name).
-        { unfold dns, known_dns_name. rewrite Pa. destruct (N.eqb peer_name peer_addr) eqn:Q; [|reflexivity].
-          apply N.eqb_eq in Q. contradiction. }
-        rewrite E in H. cbn in H. discriminate.
+    - destruct (match_idP dns dnss) as [Ed|rd Erd Nd Id|Nd Md]; cbn in H; try discriminate.
+      right. exists rd. split; assumption.
     - left. inversion Eri; subst. assumption.
-    - cbn in H. discriminate.
+    - destruct (match_idP dns dnss) as [Ed|rd Erd Nd Id|Nd Md]; cbn in H; try discriminate.
+      right. exists rd. split; assumption.
   Qed.
 
-  Lemma authn_host_defect_exact :
-    refuses = false -> rh = true -> ~ host_authenticated peer_addr dns ips dnss ->
-    dns = None /\ dnss <> [] /\ ips = [].
-  Proof.
-    intros H R NH.
-    destruct dns as [d|] eqn:Ed.
-    - exfalso. apply NH. rewrite <- Ed. apply authn_host_partial; auto.
-      left. unfold dns, known_dns_name in Ed. destruct passive; [discriminate|].
-      split; [reflexivity|]. destruct (N.eqb peer_name peer_addr) eqn:Q; [discriminate|].
-      apply N.eqb_neq. exact Q.
-    - split; [reflexivity|].
-      destruct (nil_dec _ dnss) as [Dn|Dn].
-      + exfalso. apply NH. rewrite <- Ed. apply authn_host_partial; auto.
-      + split; [exact Dn|].
-        destruct (nil_dec _ ips) as [Di|Di]; [exact Di|].
-        exfalso. apply NH. rewrite <- Ed. apply authn_host_partial; auto.
-  Qed.
-
-  Lemma authn_partial :
-    ((passive = false /\ peer_name <> peer_addr) \/ dnss = [] \/ ips <> [] \/ rh = false) ->
+  (* the full statement *)
+  Lemma authn_sound :
     refuses = false -> policy_ok peer_addr dns node ips dnss uris rh rn.
   Proof.
-    intros G H. unfold policy_ok. split; [apply authn_no_contradiction; exact H|]. split.
-    - intros R. apply authn_host_partial; auto.
-      destruct G as [G|[G|[G|G]]]; auto. congruence.
+    intros H. unfold policy_ok. split; [apply authn_no_contradiction; exact H|]. split.
+    - apply authn_host. exact H.
     - apply authn_node. exact H.
   Qed.
 
@@ -188,49 +163,34 @@ Section Authn.
   Proof.
     intros [[Ci [Cd Cn]] [Hh Hn]]. rewrite refuses_unfold. cbv zeta.
     unfold kind_consistent in *.
-    destruct (match_idP (Some peer_addr) ips) as [Ei|ri Eri Ni Ii|Ni Mi];
-    destruct (match_idP dns dnss) as [Ed|rd Erd Nd Id|Nd Md];
-    destruct (match_idP (Some node) uris) as [En|rn' Ern Nn In'|Nn Mn];
-    cbn;
-    try (exfalso; apply (Mi peer_addr eq_refl); apply Ci; [reflexivity|assumption]);
-    try (exfalso; apply (Mn node eq_refl); apply Cn; [reflexivity|assumption]).
-    all: repeat rewrite ?orb_false_r, ?andb_true_r, ?andb_false_r, ?orb_false_l.
-    all: try reflexivity.
-    all: try (destruct dns as [d|] eqn:Edns; cbn;
-              [exfalso; apply (Md d eq_refl); apply Cd; [reflexivity|assumption]|]).
-    all: try reflexivity.
-    all: destruct rh; destruct rn; cbn; try reflexivity; exfalso.
-    all: try (specialize (Hn eq_refl); unfold node_authenticated in Hn; subst uris; destruct Hn).
-    all: try (specialize (Hh eq_refl); unfold host_authenticated in Hh; subst ips;
-              destruct Hh as [[]|[d [E I]]]; try discriminate;
-              try (subst dnss; destruct I);
-              try (apply (Md d E); exact I)).
+    assert (Xi : is_mismatch (match_id (Some peer_addr) ips) = false).
+    { destruct (match_idP (Some peer_addr) ips) as [E|r Er N I|N M]; try reflexivity.
+      exfalso. apply (M peer_addr eq_refl). apply Ci; [reflexivity|exact N]. }
+    assert (Xn : is_mismatch (match_id (Some node) uris) = false).
+    { destruct (match_idP (Some node) uris) as [E|r Er N I|N M]; try reflexivity.
+      exfalso. apply (M node eq_refl). apply Cn; [reflexivity|exact N]. }
+    assert (Xd : is_some dns && is_mismatch (match_id dns dnss) = false).
+    { destruct dns as [d|] eqn:Edns; [|reflexivity]. cbn [is_some andb].
+      destruct (match_idP (Some d) dnss) as [E|r Er N I|N M]; try reflexivity.
+      exfalso. apply (M d eq_refl). apply Cd; [reflexivity|exact N]. }
+    assert (Xh : negb (is_matched (match_id (Some peer_addr) ips)) && negb (is_matched (match_id dns dnss)) && rh = false).
+    { destruct rh; [|apply andb_false_r]. rewrite andb_true_r.
+      destruct (Hh eq_refl) as [I|[d [Ed I]]].
+      - destruct (match_idP (Some peer_addr) ips) as [E|r Er N I'|N M]; try reflexivity.
+        + exfalso. rewrite E in I. destruct I.
+        + exfalso. apply (M peer_addr eq_refl). exact I.
+      - apply andb_false_iff. right.
+        destruct (match_idP dns dnss) as [E|r Er N I'|N M]; try reflexivity.
+        + exfalso. rewrite E in I. destruct I.
+        + exfalso. apply (M d Ed). exact I. }
+    assert (Xu : is_absent (match_id (Some node) uris) && rn = false).
+    { destruct rn; [|apply andb_false_r]. rewrite andb_true_r.
+      specialize (Hn eq_refl). unfold node_authenticated in Hn.
+      destruct (match_idP (Some node) uris) as [E|r Er N I'|N M]; try reflexivity.
+      exfalso. rewrite E in Hn. destruct Hn. }
+    cbn [andb] in *. rewrite Xi, Xd, Xn, Xh, Xu. reflexivity.
   Qed.
 End Authn.
-
-(* the full-strength statement is false on the generated model: a passive
-   endpoint requiring host authentication accepts a certificate that carries
-   only DNS names (it has no DNS name to compare them with, and none of them is
-   counted as matched either) *)
-Lemma authn_host_refuted :
-  exists passive peer_name peer_addr node ips dnss uris,
-    authn_refuses passive peer_name peer_addr node ips dnss uris true false = false
-    /\ ~ host_authenticated peer_addr (known_dns_name passive peer_name peer_addr) ips dnss.
-Proof.
-  exists true, 1%N, 1%N, 21%N, (@nil N), [11%N], (@nil N).
-  split; [vm_compute; reflexivity|].
-  intros [[]|[d [E _]]]. vm_compute in E. discriminate.
-Qed.
-
-Lemma authn_refuted :
-  exists passive peer_name peer_addr node ips dnss uris rh rn,
-    authn_refuses passive peer_name peer_addr node ips dnss uris rh rn = false
-    /\ ~ policy_ok peer_addr (known_dns_name passive peer_name peer_addr) node ips dnss uris rh rn.
-Proof.
-  exists true, 1%N, 1%N, 21%N, (@nil N), [11%N], (@nil N), true, false.
-  split; [vm_compute; reflexivity|].
-  intros [_ [H _]]. destruct (H eq_refl) as [[]|[d [E _]]]. vm_compute in E. discriminate.
-Qed.
 
 (* the computable rendering of the specification agrees with it *)
 Lemma policy_okb_ok : forall addr dns node ips dnss uris rh rn,
